@@ -606,6 +606,9 @@ class Tree:
     def __init__(self, root: str = REPO, overlay: Optional[Dict[str, str]] = None):
         self.root = root
         self.overlay = dict(overlay or {})
+        patch = os.environ.get("HGV_PATCH")
+        if patch and overlay is None:
+            self.overlay.update(overlay_from_patch(root, patch))
         self._files: Dict[str, FileIndex] = {}
         self._text: Dict[str, str] = {}
         self.read_log: Dict[str, str] = {}  # rel path -> sha256 (evidence)
@@ -736,3 +739,33 @@ class Tree:
                 continue
             out.extend(self.funcs(rel, name, cls))
         return out
+
+
+def overlay_from_patch(root: str, patch: str) -> Dict[str, str]:
+    """Apply a unified diff to copies of the affected files (never touching `root`) and return {rel: new text}.
+
+    Development aid for trying seeded changes without editing /repo; registered checks never set HGV_PATCH."""
+    import re
+    import shutil
+    import subprocess
+    import tempfile
+    txt = open(patch, encoding="utf-8", errors="replace").read()
+    rels = sorted(set(re.findall(r"^\+\+\+ b/(\S+)", txt, re.M)))
+    tmp = tempfile.mkdtemp(prefix="hgv_patch_")
+    try:
+        for rel in rels:
+            src = os.path.join(root, rel)
+            dst = os.path.join(tmp, rel)
+            os.makedirs(os.path.dirname(dst), exist_ok=True)
+            if os.path.exists(src):
+                shutil.copy(src, dst)
+        r = subprocess.run(["patch", "-p1", "-s", "-i", os.path.abspath(patch)], cwd=tmp, capture_output=True, text=True)
+        if r.returncode != 0:
+            raise AnalysisError("anchor-vanished", f"patch does not apply: {r.stdout[:200]} {r.stderr[:200]}")
+        out = {}
+        for rel in rels:
+            with open(os.path.join(tmp, rel), encoding="utf-8", errors="replace") as fh:
+                out[rel] = fh.read()
+        return out
+    finally:
+        shutil.rmtree(tmp, ignore_errors=True)
